@@ -451,6 +451,9 @@ def spec_c09(c):
         return "C09: on a bound-consistent tree the engine did not return the maximum feasible score (exhaustive tree evaluation in Coq)"
     if has(c, TREE, "returned") and not has(c, TREE, "self"):
         return "C09: the returned solution is not a feasible node of the tree with the returned score"
+    if c["meta"].get("outcome", 0) != 0 and c["meta"].get("failed_nodes", 0) == 0 and not has(c, TREE, "haspanic"):
+        return "C09: the engine " + ("deadlocks" if c["meta"]["outcome"] == 1 else "panics") + " on a finite tree none of whose node solvers fails " \
+               "(it returns neither the best leaf nor 'nothing')"
     return None
 
 
